@@ -1,4 +1,5 @@
 import ScrapliModel.Lemmas.Interactive
+import ScrapliModel.Generated.C12
 /-!
 # C12 — Interactive dialogues are paced by the device; secrets go only to their prompt
 
@@ -336,5 +337,29 @@ theorem secret_never_at_level_prompt (cfg : Cfg) (prev target : Level) (secret :
     simp only [Completed, escalateComplete, List.any_cons, List.any_nil, Bool.or_false,
       Bool.or_eq_true]
     exact hshown
+
+/-! ## tie to the source: the event list `escalate` builds -/
+
+/-- Obligation on the regenerated facts (go/ast over driver/network/acquirepriv.go): `escalate`
+builds exactly two events — the escalate command, visible, answered by the escalate prompt; then
+the secondary secret, **hidden**, answered by the target level's pattern — and passes the previous
+and the target level pattern, in this order, as complete patterns. -/
+theorem escalate_source_shape :
+    Gen.C12.escalateEvents =
+      [("p.Escalate", "p.EscalatePrompt", false), ("d.AuthSecondary", "p.Pattern", true)] ∧
+    Gen.C12.escalateComplete = ["d.PrivilegeLevels[p.PreviousPriv].patternRe", "p.patternRe"] := by
+  decide
+
+/-- the model's `escalateEvents` / `escalateComplete` have that shape: inputs, hidden flags and
+which response goes with which event, for every level and secret -/
+theorem escalate_model_shape (prev target : Level) (secret : Bytes) :
+    (escalateEvents target secret).map (fun e => (e.input, e.hidden)) =
+      [(target.escalate, false), (secret, true)] ∧
+    (escalateEvents target secret).map (fun e => e.hidden) =
+      Gen.C12.escalateEvents.map (fun e => e.2.2) ∧
+    (escalateEvents target secret).length = Gen.C12.escalateEvents.length ∧
+    (escalateComplete prev target).length = Gen.C12.escalateComplete.length := by
+  refine ⟨rfl, ?_, ?_, ?_⟩ <;> simp [escalateEvents, escalateComplete, Gen.C12.escalateEvents,
+    Gen.C12.escalateComplete]
 
 end Scrapli.Inter.C12
